@@ -45,12 +45,13 @@ def explore(maxfl, cmod=256):
             p, lab = seen[s]; out.append((lab, s)); s = p
         return out[::-1]
     return len(seen), worst, bad21, bad22, trace
-for fl in (2, 3):
-    n, worst, b21, b22, trace = explore(fl)
-    print("in-flight<=", fl, "states", n, "max consecutive non-run", worst)
-    if b22:
-        print("  C22 witness: from", b22[0], "deliver idx", b22[1]); 
-        for lab, s in trace(b22[0])[-12:]: print("     ", lab, "->", s)
-    if b21:
-        print("  C21 witness: from", b21[0], "deliver idx", b21[1])
-        for lab, s in trace(b21[0])[-12:]: print("     ", lab, "->", s)
+if __name__ == "__main__":
+  for fl in (2, 3):
+      n, worst, b21, b22, trace = explore(fl)
+      print("in-flight<=", fl, "states", n, "max consecutive non-run", worst)
+      if b22:
+          print("  C22 witness: from", b22[0], "deliver idx", b22[1]); 
+          for lab, s in trace(b22[0])[-12:]: print("     ", lab, "->", s)
+      if b21:
+          print("  C21 witness: from", b21[0], "deliver idx", b21[1])
+          for lab, s in trace(b21[0])[-12:]: print("     ", lab, "->", s)
